@@ -1,10 +1,8 @@
 (* C19 Equality, hashing and ordering agree with the canonical string *)
 Load "coq/props/Hdr".
 From PM Require Import Inj Inj2 Order Assemble Exec Final.
-Lemma src_rt : rt_ok cfg. Proof. apply conds_rt_ok. vm_compute. reflexivity. Qed.
-Lemma src_tbl : tbl_ok cfg. Proof. apply conds_tbl_ok. vm_compute. reflexivity. Qed.
-Lemma src_cfg_ok : cfg_ok cfg. Proof. exact (rt_cfg _ src_rt). Qed.
-Ltac sc := sidecond_with src_rt src_tbl.
+Lemma src_rt : rt_ok cfg. Proof. prove_rt. Qed.
+Lemma src_cfg_ok : cfg_ok cfg. Proof. sc. Qed.
 (* equal canonical strings => equal PURLs (the converse is congruence) *)
 Theorem C19_string_determines_generic : forall t1 p1 t2 p2, valid_type cfg t1 = true -> valid_type cfg t2 = true ->
   keys_valid cfg (p_quals p1) -> keys_valid cfg (p_quals p2) -> format cfg G t1 p1 = format cfg G t2 p2 -> t1 = t2 /\ p1 = p2.
